@@ -56,3 +56,9 @@ def run(ctx):
     ctx.floor("D1", 1)
     U.u9_absent_maximum_bounds_nothing(ctx)
     ctx.floor("U9", 1)
+    from ..engines import closure as GC
+    GC.g9_ungroup_only_when_grouping(ctx)
+    ctx.floor("G9", 1)
+    from ..engines import sizecheck as SCC
+    SCC.s0_compositions(ctx)
+    ctx.floor("S0", 4)
